@@ -263,6 +263,48 @@ def rule_trailer(check):
     check.ok(R, R + "/js-reader", js.loc(g), "JS reader takes the last line and compares its start with SOURCE_MAP_INLINE_LINE_START")
 
 
+PREFIX_TESTS = ("starts_with", "strip_prefix")
+
+def comment_predicate(prog, f):
+    out = []
+    for g in prog.flat(f):
+        for n in hir.walk(g.body):
+            if not (hir.is_call(n) and (hir.callee_name(n) or n.get("method")) in PREFIX_TESTS):
+                continue
+            recv = hir.peel(hir.call_args(n)[0])
+            chain = []
+            x = recv
+            for _ in range(6):
+                l = hir.local_of(x)
+                if l:
+                    b = g.bindings().get(l[0])
+                    if b and b["origin"][0] == "let" and b["origin"][1] is not None:
+                        x = hir.peel(b["origin"][1])
+                        continue
+                if x.get("k") == "MethodCall":
+                    chain.append(x["method"])
+                    x = hir.peel(x["recv"])
+                    continue
+                break
+            base = (hir.place(x) or "").split(".")[-1]
+            lx = hir.local_of(x)
+            if lx and g is not f and g.bindings().get(lx[0], {}).get("origin", ("",))[0] == "param":
+                # the text is a parameter of a helper: what is handed in at its call sites
+                pi = g.bindings()[lx[0]]["origin"][1]
+                segs = set()
+                for caller in prog.flat(f):
+                    for cn in hir.calls_in(caller.body):
+                        if prog.resolve_local(cn) is g and pi < len(hir.call_args(cn)):
+                            segs.add((hir.place(hir.call_args(cn)[pi]) or "?").split(".")[-1])
+                if len(segs) == 1:
+                    base = segs.pop()
+            import re as _re
+
+            out.append((tuple(chain), hir.def_path_of(hir.call_args(n)[1]) or hir.describe(hir.call_args(n)[1]), _re.sub(r"#\d+", "", base)))
+    return sorted(set(out))
+
+
+
 def rule_comment(check):
     R = "COMMENT-REMOVAL"
     check.rule(R, "the superseded original sourceMappingURL comment is removed from the comment map (never from the text) before printing, recognised by the same predicate that extract_source_map uses")
@@ -280,45 +322,8 @@ def rule_comment(check):
     r = prog.fn("rewriter::remove_source_map_comments")
     e = prog.fn("rewriter::extract_source_map")
 
-    PREFIX_TESTS = ("starts_with", "strip_prefix")
-
     def predicate(f):
-        out = []
-        for g in prog.flat(f):
-            for n in hir.walk(g.body):
-                if not (hir.is_call(n) and (hir.callee_name(n) or n.get("method")) in PREFIX_TESTS):
-                    continue
-                recv = hir.peel(hir.call_args(n)[0])
-                chain = []
-                x = recv
-                for _ in range(6):
-                    l = hir.local_of(x)
-                    if l:
-                        b = g.bindings().get(l[0])
-                        if b and b["origin"][0] == "let" and b["origin"][1] is not None:
-                            x = hir.peel(b["origin"][1])
-                            continue
-                    if x.get("k") == "MethodCall":
-                        chain.append(x["method"])
-                        x = hir.peel(x["recv"])
-                        continue
-                    break
-                base = (hir.place(x) or "").split(".")[-1]
-                lx = hir.local_of(x)
-                if lx and g is not f and g.bindings().get(lx[0], {}).get("origin", ("",))[0] == "param":
-                    # the text is a parameter of a helper: what is handed in at its call sites
-                    pi = g.bindings()[lx[0]]["origin"][1]
-                    segs = set()
-                    for caller in prog.flat(f):
-                        for cn in hir.calls_in(caller.body):
-                            if prog.resolve_local(cn) is g and pi < len(hir.call_args(cn)):
-                                segs.add((hir.place(hir.call_args(cn)[pi]) or "?").split(".")[-1])
-                    if len(segs) == 1:
-                        base = segs.pop()
-                import re as _re
-
-                out.append((tuple(chain), hir.def_path_of(hir.call_args(n)[1]) or hir.describe(hir.call_args(n)[1]), _re.sub(r"#\d+", "", base)))
-        return sorted(set(out))
+        return comment_predicate(prog, f)
 
     def has_prefix_test(g, x):
         """x contains the prefix test itself or a call of a crate helper that performs it"""
